@@ -29,6 +29,11 @@ type c05Case struct {
 	Picks   []int   `json:"picks"` // which pending command completes at each step (mod #pending); filled while running
 	Exhaust bool    `json:"-"`
 	Split   bool    `json:"split,omitempty"` // messages queue up between the completion of a command and their handling
+	// LateReads: the squasher's read of the full store at the end of the segment being merged, when it loses
+	// against the partial's load, completes at a later step chosen by the schedule (world/lateread.go)
+	LateReads bool `json:"late_reads,omitempty"`
+	// LateInside: instead of completing at a drawn step, the held reads complete while the next merge loads its partial
+	LateInside bool `json:"late_inside,omitempty"`
 }
 
 type picker func(n int) int
@@ -39,6 +44,8 @@ type c05Stats struct {
 	outOfOrder          bool
 	mergeBetweenJobs    bool
 	states              map[string]bool
+	lateReleased        int
+	lateHeld            int
 }
 
 func outputFilePath(dir, hash string, start, end uint64) string {
@@ -63,14 +70,45 @@ func checkC05(c c05Case, pick picker, picks *[]int) (*ev.Failure, c05Stats) {
 	if len(b.Subsets) > 0 && len(u.names) > 0 {
 		keep := resolveSubset(b.Subsets[0], len(u.names))
 		files := map[string][]byte{}
+		hashes := moduleHashes(b.Prog)
 		for i, rel := range u.names {
-			if keep[i] {
+			k := keep[i]
+			if c.LateReads {
+				// the cache state in which the squasher finds, for one store, both the partial of a segment and
+				// the snapshot at its end: the stage's other store has no snapshot (so the unit is not complete and
+				// is merged) while the main store has its snapshots and its left-over partials
+				for name, h := range hashes {
+					if !strings.Contains(rel, h+"/states/") {
+						continue
+					}
+					if strings.HasPrefix(name, "side_") && strings.Contains(rel, ".kv") {
+						k = false
+					}
+					if strings.HasPrefix(name, "store_") {
+						k = true
+					}
+				}
+			}
+			if k {
 				files[rel] = u.files[rel]
 			}
 		}
 		writeTree(dir, files)
+		if os.Getenv("VERIF_DEBUG_C05") != "" && c.LateReads {
+			fmt.Println("HASHES", hashes)
+			fmt.Println("FILES", listFiles(dir))
+		}
 	}
 	cfg := &world.Config{Dir: dir, Seg: b.Seg, Workers: b.Run.Workers, Final: b.Run.Final, Steps: world.LinearChain(b.Head)}
+	var late *world.LateReads
+	if os.Getenv("VERIF_DEBUG_C05") != "" {
+		fmt.Printf("CASE late=%v inside=%v split=%v\n", c.LateReads, c.LateInside, c.Split)
+	}
+	if c.LateReads {
+		late = &world.LateReads{InsideNextMerge: c.LateInside}
+		cfg.LateReads = late
+		defer late.ReleaseAll()
+	}
 	o, initCmd, err := world.BuildOwned(b.Prog.Modules(), world.Request{Prod: b.Run.Prod, Start: int64(b.Run.Start), Stop: b.Run.Stop, Output: b.Run.Output}, cfg)
 	if err != nil {
 		return ev.Failf("setup-error", "assembling the scheduler failed: %v", err), st
@@ -281,21 +319,33 @@ func checkC05(c c05Case, pick picker, picks *[]int) (*ev.Failure, c05Stats) {
 			}
 			choosable = append(choosable, i)
 		}
-		if len(queue) > 0 {
-			// one more option: the loop handles the oldest message
-			k := pick(len(choosable) + 1)
+		nheld := 0
+		if late != nil && !c.LateInside {
+			nheld = late.Pending()
+		}
+		if len(queue) > 0 || nheld > 0 {
+			// more options: the loop handles the oldest message; a held snapshot read completes
+			ndeliver := 0
+			if len(queue) > 0 {
+				ndeliver = 1
+			}
+			n := len(choosable) + ndeliver + nheld
+			k := pick(n) % n
 			*picks = append(*picks, k)
-			if k%(len(choosable)+1) == len(choosable) {
+			switch {
+			case k < len(choosable):
+				if f := runCmd(choosable[k]); f != nil {
+					return f, st
+				}
+			case k < len(choosable)+ndeliver:
 				msg := queue[0]
 				queue = queue[1:]
 				if f := deliver(msg); f != nil {
 					return f, st
 				}
-				continue
-			}
-			idx := choosable[k%(len(choosable)+1)]
-			if f := runCmd(idx); f != nil {
-				return f, st
+			default:
+				late.Release(k - len(choosable) - ndeliver)
+				st.lateReleased++
 			}
 			continue
 		}
@@ -309,6 +359,15 @@ func checkC05(c c05Case, pick picker, picks *[]int) (*ev.Failure, c05Stats) {
 		*picks = append(*picks, k)
 		if f := runCmd(choosable[k%len(choosable)]); f != nil {
 			return f, st
+		}
+	}
+	if late != nil {
+		if !c.LateInside {
+			late.ReleaseAll() // reads still in flight complete before the stores are handed to the linear part
+		} // else they are still in flight when the stores are handed over (completed by the deferred ReleaseAll)
+		st.lateHeld = late.Held
+		for k, v := range late.Seen {
+			ev.Get("C05", "Schedules").Count("squasher-"+k, v)
 		}
 	}
 	if quitErr != nil {
@@ -421,7 +480,29 @@ func genC05(t *rapid.T) c05Case {
 		}
 	}
 	base.Run.Workers = rapid.IntRange(1, 3).Draw(t, "c05workers")
-	return c05Case{Base: base, Split: rapid.Bool().Draw(t, "split")}
+	c := c05Case{Base: base, Split: rapid.Bool().Draw(t, "split")}
+	if rapid.IntRange(0, 2).Draw(t, "latereads") == 0 {
+		// late completion of the squasher's racing snapshot read: needs a stage with two stores and a warm cache
+		c.LateReads = true
+		c.LateInside = rapid.IntRange(0, 2).Draw(t, "lateinside") > 0
+		b := &c.Base
+		b.Prog = pgen.GenChainOpts(t, rapid.IntRange(1, 2).Draw(t, "latedepth"), []uint64{0, 0, 1, b.Seg}, pgen.ChainOpts{Siblings: true})
+		init := b.Prog.Mod("out").Initial
+		b.Run = runSpec{Prod: rapid.Bool().Draw(t, "lateprod"), Output: "out", Final: b.Head, Workers: b.Run.Workers}
+		b.Run.Start = init + rapid.Uint64Range(2*b.Seg, 4*b.Seg).Draw(t, "latestart")
+		b.Run.Stop = b.Run.Start + rapid.Uint64Range(1, b.Seg).Draw(t, "latelen")
+		if b.Run.Stop > b.Head {
+			b.Run.Stop = b.Head
+		}
+		if b.Run.Stop <= b.Run.Start {
+			b.Run.Stop = b.Run.Start + 1
+		}
+		if rapid.IntRange(0, 3).Draw(t, "latelinear") > 0 {
+			b.Run.Final = b.Run.Start // a linear part follows: the merged stores are handed to it and compared
+		}
+		b.Subsets = [][]int{{-1 - rapid.IntRange(0, 900).Draw(t, "latesubset")}} // a prefix of the universe, completed by the rule of checkC05
+	}
+	return c
 }
 
 func TestC05(t *testing.T) {
@@ -445,6 +526,13 @@ func TestC05(t *testing.T) {
 		}
 		if c.Split {
 			cl = append(cl, "messages-queued-fifo")
+		}
+		if st.lateHeld > 0 {
+			cl = append(cl, "snapshot-read-completed-late")
+		}
+		r.Count("late-snapshot-reads-held", st.lateHeld)
+		if os.Getenv("VERIF_DEBUG_C05") != "" && c.LateReads {
+			fmt.Printf("LATE prod=%v start=%d stop=%d seg=%d steps=%d jobs=%d merges=%d held=%d fail=%v subsets=%v\n", c.Base.Run.Prod, c.Base.Run.Start, c.Base.Run.Stop, c.Base.Seg, st.steps, st.jobs, st.merges, st.lateHeld, f != nil, c.Base.Subsets)
 		}
 		r.Count("steps", st.steps)
 		r.Count("distinct-scheduler-states", len(st.states))
